@@ -187,8 +187,8 @@ class ConfigParser():
                 target_host  = IP(target_host)
             except ValueError:
                 self.logger.error(f"Error when converting {target_host} to IP address object")
-            if isinstance(block_list,list):
-                known_blocks[target_host] = map(lambda x: IP(x), block_list)
+            if isinstance(block_list,(list, dict, set)):
+                known_blocks[target_host] = {IP(x) for x in block_list}
             elif block_list == "all_attackers":
                 known_blocks[target_host] = block_list
             else:
@@ -206,14 +206,15 @@ class ConfigParser():
                 # Check the host is a good ip
                 _ = netaddr.IPAddress(ip)
                 known_services_host = IP(ip)
-                if data.lower() == "random":
+                if isinstance(data, str) and data.lower() == "random":
                     known_services[known_services_host] = "random"
+                    continue
                 name = data[0]
                 type = data[1]
                 version = data[2]
                 is_local = data[3]
 
-                known_services[known_services_host] = Service(name, type, version, is_local)
+                known_services[known_services_host] = {Service(name, type, version, is_local)}
 
             except (ValueError, netaddr.AddrFormatError):
                 known_services = {}
